@@ -250,6 +250,28 @@ def check(case, ctx):
             for span, x, y in zip(sp, ss, sa):
                 npep += 1
                 piece_checks(tuple(span), x, y, fname)
+    # one parsed protein object, digested, edited by an explicit editor, digested again: the second digest describes the
+    # edited protein (= the digest of a freshly parsed copy of it)
+    res_idx = {int(i) for i, _ in P.get('res', [])}
+    free = [j for j in range(n) if j not in res_idx and not c11.cuts_inside(P, j, j + 1)]
+    if free and not has_iv:
+        for rule in RULES[:2]:
+            for edit in ('add', 'pop'):
+                st0, obj = lib.call(p.parse, s)
+                if st0 != 'ok' or (edit == 'pop' and not res_idx):
+                    continue
+                lib.call(lambda: list(p.digest(obj, rule, missed_cleavages=1, return_type='str')))
+                lib.call(lambda: obj.slice(0, n))
+                if edit == 'add':
+                    lib.call(obj.add_internal_mod, free[0], 'Methyl')
+                else:
+                    lib.call(obj.pop_internal_mod, min(res_idx))
+                a1 = lib.call(lambda: list(p.digest(obj, rule, missed_cleavages=1, return_type='str')))
+                a2 = lib.call(lambda: list(p.digest(p.parse(obj.serialize()), rule, missed_cleavages=1, return_type='str')))
+                ctx.evals += 3
+                if a1[0] != a2[0] or (a1[0] == 'ok' and a1[1] != a2[1]):
+                    ctx.fail('digest-after-edit', a2[1], a1[1], text=s, rule=rule, edit=edit,
+                             edited=obj.serialize() if a2[0] == 'ok' else None)
     ctx.sub_states = npep
     ctx.sub_nontrivial = npep
     ctx.outcome = s
